@@ -2,9 +2,10 @@ SPECIFICATION Spec
 CONSTANTS
   N = 5
   MaxItems = 2
+  DropStraddler = TRUE
   Mech = "addto"
 INVARIANT SweepOK
 INVARIANT TokDisjoint
 CHECK_DEADLOCK FALSE
 INVARIANT AddDisjoint
-CONSTRAINT EnvNoStraddle
+
